@@ -184,6 +184,9 @@ def run(ctx):
             "--all_lower, unbounded and with --size N for N = 1, total, total+3, b-1/b/b+1 around group boundaries and strictly inside "
             "groups of equally probable words; output compared byte-wise with the in-process reference; non-trivial = N strictly inside a "
             "group; distinct by (ruleset, N)")
+    # second tie to the source (translator): name the broken equality if the build lost ExpandGenProofs
+    import expand_tie
+    corr.append(expand_tie.obligation())
     return {"evaluations": dist["cli_runs"], "distinct_nontrivial": nontrivial, "rule": rule, "samples": samples,
             "corr": corr, "violations": vio, "dist": dist}
 
